@@ -3,10 +3,11 @@ CONSTANTS
   MaxEvents = 2
   Faithful = TRUE
   Macro = TRUE
+  EnvAts = {1, 2}
   EnvFaults = {"401"}
   BodyFaults = {"gzip"}
   ParseFaults = {"garbage"}
-INVARIANTS TypeOK ErrorMeansNoEffects SuccessMeansAllTried PerEventExact NoListElsewhere ExactlyOneStatus EffectsAreTheEvents FaultFreeSucceeds FaultMeansError
+INVARIANTS TypeOK ErrorMeansNoEffects SuccessMeansAllTried PerEventExact NoListElsewhere ExactlyOneStatus EffectsAreTheEvents FaultFreeSucceeds FaultMeansError BatchesInOrder
 PROPERTIES NothingAfterAnswer StatusStable
 ACTION_CONSTRAINT Dump
 VIEW View
